@@ -405,7 +405,19 @@ func (vc *VC) globalGet(s *State, g *ssa.Global) Term {
 	t := g.Type().(*types.Pointer).Elem()
 	name := vc.globalName(g)
 	if vc.P.globalConst(g) {
-		return vc.declare(sym(name), vc.S.sortOf(t))
+		first := !vc.declSet[sym(name)]
+		c := vc.declare(sym(name), vc.S.sortOf(t))
+		if first {
+			// a never-reassigned package variable with a constant initialiser keeps that value
+			if v, ok := vc.P.globalInit(g); ok {
+				if _, _, isInt := intInfo(t); isInt || isBool(t) {
+					ex := &exprTr{vc: vc}
+					vc.addAssume("true", eq(c, ex.constVal(t, v).t))
+					vc.assume("package variable " + g.Pkg.Pkg.Name() + "." + g.Name() + " is never reassigned (checked by SSA scan) and keeps its constant initial value")
+				}
+			}
+		}
+		return c
 	}
 	return vc.heapGet(s, name, vc.S.sortOf(t))
 }
